@@ -92,7 +92,13 @@ def _install():
         def monthcalendar(year, month):
             raise core.Unsupported("persian.monthcalendar")
     n.JP.persian = StubPersian
-    n.JP.jalali_parser.calendar_converter = StubPersian   # the class attribute was bound to the module at import
+    # the class attribute was bound to the module at import.  It is stubbed only if it IS the third-party module: a
+    # converter defined in the repository itself is real code under test and runs as it is (symbolically where the
+    # engine can, otherwise the path is inconclusive and probed concretely against the reference conversion)
+    if getattr(n.JP.jalali_parser.calendar_converter, "__name__", "") == "convertdate.persian":
+        n.JP.jalali_parser.calendar_converter = StubPersian
+    else:
+        _INSTALLED["own_converter"] = True
 
     class _Tuple:
         def __init__(self, t):
@@ -214,6 +220,10 @@ def h_named(month, alt=False, weekday=None, day_word=None, width=2, with_time=Fa
 
 
 def _run(cal, n, s, Y, M, D, H, Mi, S, wit):
+    if _INSTALLED.get("own_converter") and cal == "jalali":
+        # (float Julian-day arithmetic is typical of such converters and is outside the engine: every path is reported
+        # inconclusive and its models - corner and scattered - are replayed against the reference conversion)
+        raise core.Unsupported("the Jalali converter is repository code, not convertdate.persian: no stub contract applies")
     core.CUR.notes["c15_calls"] = []
     cls = n.CA.__dict__  # noqa
     Cal = __import__("dateparser.calendars.jalali", fromlist=["JalaliCalendar"]).JalaliCalendar if cal == "jalali" else \
